@@ -7,6 +7,11 @@
    `finally` block.  Inference results are memoised in inference_state.memoize_cache under keys that
    do not contain the switch.
 
+   The same pattern exists for process-wide settings (dynamic_arrays turns settings.dynamic_params_for_other_modules
+   off while it searches for list.append calls) and for other per-Script switches (allow_descriptor_getattr,
+   dynamic_params_depth, is_analysis): SwitchRestored is observed on the real code after EVERY query of the C16
+   histories for every attribute of jedi.settings and these inference-state attributes.
+
    Model: variables V whose value depends on the switch: with flow analysis ON an `if 1: x = A() else:
    x = B()` yields {A}, with it OFF {A, B}.  Queries on one Script:
      Infer(v)   flow analysis on; answers memo[v] if present, else computes with the CURRENT switch
